@@ -12,7 +12,8 @@ R08c  MergeLinkFiles, per path of its loop: add / merge / hide as documented (se
 R08d  mergeentries overrides only the fields a block sets
 R08e  .cap files: Type=X or - hides, anything else overrides; unreadable .cap files are ignored
 R08f  Host=+ / Port=+ leave the field unset, which every renderer reads as "this server"
-The text of link files (line syntax, Path= forms, abstracts with continuation lines) is not decided.
+R08g  the text of link files: getLinkItem() evaluated on 12 scripted blocks (Path= forms, Host=+/Port=+, Numb=,
+      Abstract= continuation, comments, .cap files) must give the documented entry
 """
 
 from __future__ import annotations
@@ -48,6 +49,7 @@ def check(ctx, rep):
     rep.rule("R08c", "MergeLinkFiles: non-merging / unmatched blocks are appended once; Type=X removes the walked entry (idempotently); other blocks merge into it; index not shrunk; nothing dropped by selector text", floor=1)
     rep.rule("R08d", "mergeentries overrides exactly the fields the block sets (not-None guard per field) and carries extended attributes", floor=1)
     rep.rule("R08e", ".cap files: Type=X or - hides the file, anything else is merged and the file listed once; unreadable .cap ignored", floor=1)
+    rep.rule("R08g", "link-file text: getLinkItem evaluated on scripted blocks gives the documented entry (Path= forms, Host=+/Port=+, Numb, Abstract continuation, comments, .cap)", floor=10)
     rep.rule("R08f", "Host=+ / Port=+ leave host/port unset (this server)", floor=2)
     umn = ctx.cls("handlers.UMN.UMNDirHandler")
     ec = prog.resolve_method(umn, "entrycmp") if umn else None
@@ -144,6 +146,7 @@ def check(ctx, rep):
             problems.append("prepare() never merges/sorts")
     rep.add("R08b", "final order = entrycmp after the merge", not problems, ctx.where(prep) if prep else "", "; ".join(sorted(set(problems))), key="R08b|sort")
     merge_obligations(ctx, rep, umn)
+    linkfile_text_obligations(ctx, rep, umn, "R08g")
 
 
 # ---------------------------------------------------------------------------- R08c-R08f
@@ -429,3 +432,128 @@ def merge_obligations(ctx, rep, umn, rule_c="R08c", only_merge=False):
                 if not key_guard:
                     problems.append(f"`{norm(c)[:40]}` is not tied to a {key} line")
             rep.add("R08f", f"{gl.qualname}: {key}+ means this server", not problems, ctx.where(gl), "; ".join(problems), key=f"R08f|{setter}")
+
+
+# ---------------------------------------------------------------------------- R08g
+LINKFILE_CASES = [
+    # (label, capfilepath, lines, expected entry state (fields not named stay unset), expected nextstep)
+    ("new entry on another server", None, ["Name=Other place", "Type=1", "Path=/abs/dir", "Host=gopher.example.org", "Port=7070", ""],
+     {"name": "Other place", "type": "1", "selector": "/abs/dir", "host": "gopher.example.org", "port": 7070}, "continue"),
+    ("./ path: merge with the walked file", None, ["Path=./fred", "Name=Fred's file", ""],
+     {"selector": "/SB/fred", "needsmerge": True, "name": "Fred's file"}, "continue"),
+    ("~/ path: merge with the walked file", None, ["Path=~/fred", ""], {"selector": "/SB/fred", "needsmerge": True}, "continue"),
+    ("relative path, Host=+ Port=+ : this server, resolved against the directory", None, ["Name=Rel", "Path=sub/x", "Host=+", "Port=+", ""],
+     {"name": "Rel", "selector": "/SB/sub/x", "needsabspath": True}, "continue"),
+    ("relative path, no host: resolved against the directory", None, ["Path=../up/x", ""], {"selector": "/up/x", "needsabspath": True}, "continue"),
+    ("relative path on another server: left alone", None, ["Path=rel/x", "Host=other.example", "Port=70", ""],
+     {"selector": "rel/x", "needsabspath": True, "host": "other.example", "port": 70}, "continue"),
+    ("trailing slash dropped", None, ["Path=/dir/", "Type=1", ""], {"selector": "/dir", "type": "1"}, "continue"),
+    ("URL: path kept", None, ["Path=URL:http://example.org/", "Name=Web", ""], {"selector": "URL:http://example.org", "name": "Web"}, "continue"),
+    ("Numb and Abstract with continuation", None, ["Path=./a", "Numb=5", "Abstract=line one\\", "line two", ""],
+     {"selector": "/SB/a", "needsmerge": True, "num": 5, "ea:ABSTRACT": "line one\nline two"}, "continue"),
+    ("comment before the block is skipped, comment after the path ends it", None, ["# about", "Path=./a", "# next", "Name=ignored"],
+     {"selector": "/SB/a", "needsmerge": True}, "continue"),
+    (".cap file: path is the walked file, last block", "/SB/file.txt", ["Name=Cap title", "Numb=2"],
+     {"selector": "/SB/file.txt", "name": "Cap title", "num": 2}, "stop"),
+    ("no Path= line: no entry", None, ["Name=Nothing", ""], None, "continue"),
+]
+
+
+def linkfile_text_obligations(ctx, rep, umn, rule="R08g"):
+    """getLinkItem() is evaluated by the walker on scripted link-file blocks (exact loops, constant folding); the entry is
+    modelled by what its setters were called with, its getters answer from that model.  The result has to be the entry
+    the UMN link-file format documents for the block."""
+    from ..paths import Const as _C
+
+    prog = ctx.prog
+    gl = prog.resolve_method(umn, "getLinkItem")
+    if gl is None:
+        rep.fail(rule, "UMNDirHandler.getLinkItem", detail="link-file parser not found")
+        return
+    fdparam = gl.params[1] if len(gl.params) > 1 else "fd"
+    capparam = gl.params[2] if len(gl.params) > 2 else "capfilepath"
+    SETTERS = {"setselector": "selector", "setname": "name", "settype": "type", "sethost": "host", "setport": "port", "setnum": "num",
+               "setneedsmerge": "needsmerge", "setneedsabspath": "needsabspath"}
+    GETTERS = {"getselector": "selector", "getname": "name", "gettype": "type", "gethost": "host", "getport": "port", "getnum": "num",
+               "getneedsmerge": "needsmerge", "getneedsabspath": "needsabspath"}
+    for label, cap, lines, want, wantstep in LINKFILE_CASES:
+        script = [l + "\n" for l in lines]
+        holder = {}
+
+        def cv(call, target, st, _script=script):
+            w = holder["w"]
+            f = call.func
+            if isinstance(f, ast.Attribute) and f.attr == "readline" and norm(f.value) == fdparam:
+                i = st.facts.get("__rl", _C(0)).value
+                st.facts["__rl"] = _C(i + 1)
+                return _C(_script[i] if i < len(_script) else "")
+            if isinstance(f, ast.Attribute) and isinstance(f.value, ast.Name):
+                ent = st.facts.get("__entvar")
+                is_entry = ent is not None and ent.kind == "const" and f.value.id == ent.value
+                if is_entry and f.attr in SETTERS and w.cur_args:
+                    st.facts["__ent." + SETTERS[f.attr]] = w.cur_args[0]
+                    return _C(None)
+                if is_entry and f.attr == "setea" and len(w.cur_args) == 2 and w.cur_args[0].kind == "const":
+                    st.facts["__ent.ea:" + str(w.cur_args[0].value)] = w.cur_args[1]
+                    return _C(None)
+                if is_entry and f.attr in GETTERS:
+                    v = st.facts.get("__ent." + GETTERS[f.attr])
+                    if v is not None:
+                        return v
+                    if w.cur_args:
+                        return w.cur_args[0]
+                    d = next((w.cur_kws[k] for k in (w.cur_kws or {}) if k == "default"), None)
+                    return d if d is not None else _C(False if GETTERS[f.attr].startswith("needs") else None)
+            return None
+
+        from ..paths import Walker as _W
+
+        facts = {"self.selectorbase": _C("/SB")}
+        w = _W(prog, ctx.resolver, call_value=cv, assumptions=facts, sticky=set(facts), exact_loops=True, unroll=len(script) + 4)
+        holder["w"] = w
+
+        # the entry object: the local the LinkEntry is bound to
+        entvar = None
+        for n in ast.walk(gl.node):
+            if isinstance(n, ast.Assign) and isinstance(n.value, ast.Call) and (dotted(n.value.func) or "").endswith("LinkEntry") \
+                    and isinstance(n.targets[0], ast.Name):
+                entvar = n.targets[0].id
+        problems = []
+        if entvar is None:
+            problems.append("no LinkEntry is created")
+        outs = set()
+        try:
+            paths = w.run(gl, umn, env={capparam: _C(cap)}, facts={**facts, "__entvar": _C(entvar)})
+        except Exception as exc:  # the evaluator met something it cannot model
+            paths = []
+            problems.append(f"the parser could not be evaluated on this block ({type(exc).__name__})")
+        for p in paths:
+            if p.kind != "return":
+                outs.add(("?", f"{p.kind}:{p.value}"))
+                continue
+            state = {k[len("__ent."):]: (v.value if v.kind == "const" else "?") for k, v in p.state.facts.items() if k.startswith("__ent.")}
+            rv = p.value
+            step, has_entry = "?", None
+            ret = [e for e in p.events if e.kind == "return"][-1].node.value if any(e.kind == "return" for e in p.events) else None
+            if isinstance(ret, ast.Tuple) and len(ret.elts) == 2:
+                # (nextstep, entry-or-None)
+                for e in reversed(p.events):
+                    if e.kind == "assign" and e.target == norm(ret.elts[0]) and e.extra is not None and e.extra.kind == "const":
+                        step = e.extra.value
+                        break
+                has_entry = not (isinstance(ret.elts[1], ast.Constant) and ret.elts[1].value is None)
+            elif rv is not None and rv.kind == "const" and isinstance(rv.value, tuple) and len(rv.value) == 2:
+                step, has_entry = rv.value[0], rv.value[1] is not None
+            outs.add((step, tuple(sorted(state.items())) if has_entry else None))
+        if not problems:
+            wantstate = None if want is None else tuple(sorted(want.items()))
+            if len(outs) != 1:
+                problems.append(f"the result is not determined: {sorted(map(str, outs))[:3]}")
+            else:
+                step, state = next(iter(outs))
+                if state != wantstate:
+                    got = dict(state) if state is not None else None
+                    problems.append(f"block {lines!r}{' (.cap for ' + cap + ')' if cap else ''} gives {got!r}, the documented meaning is {want!r}")
+                elif step != wantstep:
+                    problems.append(f"block {lines!r} ends with next step {step!r} instead of {wantstep!r}")
+        rep.add(rule, f"{gl.qualname}: {label}", not problems, ctx.where(gl), "; ".join(problems), key=f"{rule}|{label}")
